@@ -48,6 +48,9 @@ def job_exact(variant, dim, mode, norm, tier):
             normalizer = gs.normalizer.LogNormal()
             for z in sy["cval"]:
                 sym.assume(z > 0)
+        if variant == "general":  # trend function + LogNormal normaliser: detrended data in the domain of the log
+            for i in range(ncond):
+                sym.assume(sy["cval"][i] > Sym(sy["TR"](*[sy["cpos"][a][i].e for a in range(dim)])))
         # conditioning points are distinct beyond the library's isclose band
         d2 = sum(((sy["cpos"][a][0] - sy["cpos"][a][1]) * (sy["cpos"][a][0] - sy["cpos"][a][1]) for a in range(dim)), 0.0)
         sym.assume(d2 > 1e-12)
@@ -60,6 +63,7 @@ def job_exact(variant, dim, mode, norm, tier):
 
         def cap(mat, kv_, cond, num_threads=None):
             vecs.append(rnp.array(kv_, dtype=object).copy())
+            vecs.append(rnp.array(cond, dtype=object).copy())
             return orig(mat, kv_, cond, num_threads)
 
         kb.calc_field_krige_and_variance_c = cap
@@ -68,7 +72,7 @@ def job_exact(variant, dim, mode, norm, tier):
         finally:
             kb.calc_field_krige_and_variance_c = orig
         K, M = kstub.INV_LOG[0]
-        return K, M, fld, var, vecs[0]
+        return K, M, fld, var, vecs[0], vecs[1]
 
     n_ok = 0
     for pi, p in enumerate(explore(run, max_paths=64)):
@@ -81,7 +85,6 @@ def job_exact(variant, dim, mode, norm, tier):
         inv = kstub.inverse_axioms(K, M)
         cor0 = [kstub.COR(z3.RealVal(0)) == 1]
         n = K.shape[0]
-        out.append(prove(base + "/estimate at a conditioning location == datum", p.conds + inv + cor0, lift(fld[0]) == sy["cval"][0].e, T, witness_vars=wv, replay=rb, pairwise=(norm != "none")))
         # staged: (L1) the right-hand side at the conditioning location is the first column of K;
         # (L2) hence M k = e_0 (left-inverse rows); then k^T M k = k_0 = K_00 = sill
         kv = p.out[4]
@@ -90,6 +93,10 @@ def job_exact(variant, dim, mode, norm, tier):
         Mk = [z3.Sum([lift(M[i, j]) * lift(kv[j, 0]) for j in range(n)]) for i in range(n)]
         L2 = [Mk[i] == (1 if i == 0 else 0) for i in range(n)]
         out.append(prove(base + "/lemma: M k == e_0", p.conds + inv + cor0 + L1, z3.And(L2), T, witness_vars=wv, replay=rb, pairwise=False))
+        cz = [lift(x) for x in p.out[5]]
+        L0 = z3.Sum([cz[i] * lift(M[i, j]) * lift(kv[j, 0]) for i in range(n) for j in range(n)]) == cz[0]
+        out.append(prove(base + "/lemma: z^T M k == z_0 (prepared datum)", p.conds + L2, L0, T, witness_vars=wv, replay=rb, pairwise=False, instantiate=False))
+        out.append(prove(base + "/estimate at a conditioning location == datum", p.conds + cor0, lift(fld[0]) == sy["cval"][0].e, T, witness_vars=wv, replay=rb, pairwise=(norm != "none" or variant == "general"), extra=[L0], note="uses the lemma z^T M k == z_0"))
         qf = z3.Sum([lift(kv[i, 0]) * Mk[i] for i in range(n)])
         L3 = [qf == lift(kv[0, 0]), lift(kv[0, 0]) == sy["var"].e + lift(sy["nug"])]
         out.append(prove(base + "/lemma: k^T M k == k_0 == sill", p.conds + cor0 + L1 + L2, z3.And(L3), T, witness_vars=wv, replay=rb, pairwise=False))
@@ -121,6 +128,7 @@ def job_variance(variant, ncond, tier):
 
         def cap(mat, kv_, cond, num_threads=None):
             vecs.append(rnp.array(kv_, dtype=object).copy())
+            vecs.append(rnp.array(cond, dtype=object).copy())
             return orig(mat, kv_, cond, num_threads)
 
         kb.calc_field_krige_and_variance_c = cap
@@ -282,6 +290,9 @@ def replay_exact(inputs):
         k = gs.krige.Universal(model, cp, cv, "linear", normalizer=normalizer, **common)
     elif variant == "extdrift":
         k = gs.krige.ExtDrift(model, cp, cv, cext, normalizer=normalizer, **common)
+    elif variant == "general":
+        cv = trend(*cp) + np.abs(cv) + 0.1
+        k = gs.krige.Krige(model, cp, cv, mean=mean, trend=trend, normalizer=gs.normalizer.LogNormal(), unbiased=False, **common)
     else:
         k = gs.krige.Detrended(model, cp, cv, trend, **common)
     kw = {"ext_drift": cext} if variant == "extdrift" else {}
